@@ -311,6 +311,7 @@ def _rest(report, p, pr, info, reach, loader, c30, listers):
     okp = len(rel) == 1 and rec and norm(rec[0].value.args[0]) == norm(rel[0].targets[0]) and "os.path.abspath" in norm(rel[0].value)
     r3.check(okp, F, rel[0] if rel else F.node, "the path looked up is not the named file's path relative to the history root", construct="looked-up path")
 
+    include_rules(report, p, 'c10', ['R10.8'], 'info prints what the readers loaded: a reader that stops early (a fast path that skips the <hashes> section, a break on some tag) makes info -sf print fewer digests than the manifests hold')
     include_rules(report, p, 'c06', ['R6.3'], 'the loader recognises every manifest name the tool generates, for every folder name: a generation that is silently passed over makes the history look shorter or empty' + ' - info lists fewer generations or exits 30')
     include_rules(report, p, 'c03', ['R3.11'], 'everything info prints goes through the logger')
     include_rules(report, p, 'c17', ['R17.1'], 'info -sf lists the records of exactly the named path: the per-manifest index is keyed by the exact recorded path')
